@@ -30,6 +30,9 @@
   datatype_scenarios       every built-in data type, the wrapper types (EBooleanObject, EIntegerObject, ...)
       included, single and many-valued, None and defaults, both values of SERIALIZE_DEFAULT_VALUES, compared
       exactly (value AND Python type).
+  feature_flag_scenarios   attributes / references / containments (single and many) flagged volatile, unsettable,
+      changeable=False, transient, derived in many combinations: save leaves out exactly the transient and
+      derived ones; every other value, target and containment subtree must come back.
 
 Each family draws from its own PRNG stream common.rng_for(seed, '<prop>:<family>'); a failing case carries
 'scenario', 'seed', 'tier', 'history' and is replayed by common.scenario_replay.
@@ -794,3 +797,154 @@ def datatype_scenarios(ctx, out, fmt='json', prop='C09', scale=1.0):
             out.fail(dict(sig, stage='compare', types=sorted({k[2:] for k in bad})),
                      f'serialize_default={sd}: the loaded model differs: {[(k, want[k], got.get(k)) for k in bad if k != "kids"]}', case)
     out.coverage[f'datatypes_{fmt}'] = st
+
+
+# ---------------------------------------------------------------- (5) feature flags that do not change what is stored
+FLAG_SETS = [[], ['volatile'], ['volatile'], ['unsettable'], ['nochange'], ['volatile', 'unsettable'], ['volatile', 'nochange'],
+             ['unsettable', 'nochange'], ['volatile', 'unsettable', 'nochange'],
+             ['transient'], ['volatile', 'transient'], ['derived'], ['volatile', 'derived'], ['transient', 'derived']]
+FLAG_SHAPES = ['a1', 'a1i', 'an', 'r1', 'rn', 'c1', 'cn']
+
+
+def feature_flag_scenarios(ctx, out, fmt='json', prop='C09', scale=1.0):
+    """metamodels whose attributes / references / containments (single and many) carry the flags volatile,
+    unsettable, changeable=False, transient, derived in many combinations.  pyecore stores a value for every one of
+    them; save leaves out exactly the transient and the derived ones (a derived many-valued feature cannot be filled
+    and stays empty).  After save + load in a fresh ResourceSet the model must be the saved one with exactly those
+    features unset -- everything else (values, targets by name, whole containment subtrees) must be there."""
+    from pyecore import ecore as E
+    ResourceSet, URI, JsonResource = _classes(fmt)
+    from pyecore.resources.xmi import XMIOptions
+    from pyecore.resources.json import JsonOptions
+    rng = common.rng_for(ctx.seed, f'{prop}:feature-flags')
+    n = max(1, int((60 if ctx.tier != 'thorough' else 1500) * scale))
+    ext = 'json' if fmt == 'json' else 'xmi'
+    st = {'documents': 0, 'flag_sets': {}, 'shapes': {}, 'values_expected_back': 0, 'values_legitimately_dropped': 0}
+    for it in range(n):
+        pkg = E.EPackage('ff', nsURI=f'http://verif/c09/flags/{fmt}{it}', nsPrefix='ff')
+        A = E.EClass('A')
+        pkg.eClassifiers.append(A)
+        A.eStructuralFeatures.append(E.EAttribute('name', E.EString))
+        A.eStructuralFeatures.append(E.EReference('kids', A, upper=-1, containment=True))
+        feats = []
+        for j in range(rng.randrange(5, 11)):
+            shape, flags = rng.choice(FLAG_SHAPES), list(rng.choice(FLAG_SETS))
+            if 'derived' in flags and shape in ('an', 'rn', 'cn'):
+                flags = [f for f in flags if f != 'derived'] or ['volatile']   # a derived collection cannot be filled
+            kw = {f: True for f in flags if f != 'nochange'}
+            if 'nochange' in flags:
+                kw['changeable'] = False
+            fname = f'{shape}_{j}'
+            if shape[0] == 'a':
+                t = E.EInt if shape == 'a1i' else (E.EInt if shape == 'an' else E.EString)
+                A.eStructuralFeatures.append(E.EAttribute(fname, t, upper=-1 if shape == 'an' else 1, unique=False, **kw))
+            else:
+                A.eStructuralFeatures.append(E.EReference(fname, A, upper=-1 if shape[1] == 'n' else 1,
+                                                          containment=shape[0] == 'c', **kw))
+            feats.append([fname, shape, flags])
+            key = '+'.join(flags) or 'none'
+            st['flag_sets'][key] = st['flag_sets'].get(key, 0) + 1
+            st['shapes'][shape] = st['shapes'].get(shape, 0) + 1
+        dropped = {f[0] for f in feats if 'transient' in f[2] or 'derived' in f[2]}
+        sd = rng.random() < 0.3
+        hist = [['serialize_default', sd], feats]
+        root = A(name='root')
+        plain = [A(name=f'k{j}') for j in range(rng.randrange(1, 4))]
+        root.kids.extend(plain)
+        serial = [0]
+        ops = []
+        for o in [root] + plain:
+            for fname, shape, flags in feats:
+                if rng.random() < 0.3:
+                    continue
+                if shape == 'a1':
+                    v = rng.choice(['x', '', 'volatile', 'y z'])
+                    o.eSet(fname, v)
+                elif shape == 'a1i':
+                    v = rng.choice([0, 5, -1])
+                    o.eSet(fname, v)
+                elif shape == 'an':
+                    v = [rng.choice([0, 1, 7]) for _ in range(rng.randrange(0, 3))]
+                    o.eGet(fname).extend(v)
+                elif shape == 'r1':
+                    v = rng.choice(plain + [root]).name
+                    o.eSet(fname, next(x for x in [root] + plain if x.name == v))
+                elif shape == 'rn':
+                    v = sorted({rng.choice(plain + [root]).name for _ in range(rng.randrange(0, 3))})
+                    o.eGet(fname).extend([x for x in [root] + plain if x.name in v])
+                else:
+                    # children under a flagged containment: leaves of their own (never a target of a reference)
+                    cnt = 1 if shape == 'c1' else rng.randrange(0, 3)
+                    kids = []
+                    for _ in range(cnt):
+                        serial[0] += 1
+                        kids.append(A(name=f'sub{serial[0]}'))
+                    v = [k.name for k in kids]
+                    if shape == 'c1':
+                        o.eSet(fname, kids[0])
+                    else:
+                        o.eGet(fname).extend(kids)
+                ops.append([o.name, fname, v])
+                if fname in dropped:
+                    st['values_legitimately_dropped'] += 1
+                else:
+                    st['values_expected_back'] += 1
+        hist.append(ops)
+
+        def dump(o, expect):
+            """expect=True: the saved object as it must come back (transient / derived features unset)"""
+            d = {'name': o.name, 'kids': [dump(k, expect) for k in o.kids]}
+            for fname, shape, flags in feats:
+                f = o.eClass.findEStructuralFeature(fname)
+                if expect and fname in dropped:
+                    d[fname] = [] if f.many else (f.get_default_value() if f.is_attribute else None)
+                    continue
+                v = o.eGet(f)
+                if shape[0] == 'a':
+                    d[fname] = [[type(x).__name__, x] for x in v] if f.many else [type(v).__name__, v]
+                    if not f.many:
+                        d[fname] = d[fname] if v is not None else None
+                elif shape[0] == 'r':
+                    d[fname] = [x.name for x in v] if f.many else (v.name if v is not None else None)
+                else:
+                    d[fname] = [dump(x, expect) for x in v] if f.many else (dump(v, expect) if v is not None else None)
+            return d
+
+        def norm(d):
+            # an unset single attribute reads as its default: ['int', 0] and 0 are the same observation
+            return {k: (v[1] if isinstance(v, list) and len(v) == 2 and isinstance(v[0], str) and k.startswith('a1') else
+                        ([norm(x) if isinstance(x, dict) else x for x in v] if isinstance(v, list) else
+                         (norm(v) if isinstance(v, dict) else v))) for k, v in d.items()}
+        want = norm(dump(root, True))
+        case = {'scenario': 'feature-flags', 'seed': ctx.seed, 'tier': ctx.tier, 'format': fmt, 'history': hist}
+        sig = {'property': prop, 'clause': 'flagged-feature-lost', 'format': fmt}
+        st['documents'] += 1
+        with tempfile.TemporaryDirectory(prefix='verif_flags_') as tmp:
+            path = os.path.join(tmp, f'm.{ext}')
+            try:
+                res = _rset(fmt, pkg).create_resource(URI(path))
+                res.append(root)
+                opt = (JsonOptions if fmt == 'json' else XMIOptions).SERIALIZE_DEFAULT_VALUES
+                res.save(options={opt: True} if sd else None)
+                got = norm(dump(_rset(fmt, pkg).get_resource(URI(path)).contents[0], False))
+            except Exception as e:      # noqa
+                out.fail(dict(sig, stage='raised'), f'save / load raised {type(e).__name__}: {e} on {feats}', case)
+                continue
+        if got != want:
+            def first(a, b, where):
+                for k in a:
+                    if a[k] != b.get(k):
+                        if k == 'kids' or (isinstance(a[k], list) and a[k] and isinstance(a[k][0], dict)):
+                            bl = b.get(k) or []
+                            for i, x in enumerate(a[k]):
+                                if i >= len(bl) or not isinstance(bl[i], dict):
+                                    return f'{where}.{k}: saved {[y["name"] for y in a[k]]} loaded {[y.get("name") if isinstance(y, dict) else y for y in bl]}'
+                                if x != bl[i]:
+                                    return first(x, bl[i], f'{where}.{k}[{i}]')
+                        if isinstance(a[k], dict) and isinstance(b.get(k), dict):
+                            return first(a[k], b[k], f'{where}.{k}')
+                        fl = next((f[2] for f in feats if f[0] == k), None)
+                        return f'{where}.{k} (flags {fl}): saved {a[k]!r} loaded {b.get(k)!r}'
+                return f'{where}: differs'
+            out.fail(dict(sig, stage='compare'), f'serialize_default={sd}: {first(want, got, "root")}', case)
+    out.coverage[f'feature_flags_{fmt}'] = st
